@@ -161,7 +161,9 @@ Definition ex_model : emodel :=
 Definition ex_req (sub dom obj act : string) : request :=
   {| rq_ctx := None; rq_vals := [VStr sub; VStr dom; VStr obj; VStr act] |}.
 
-Ltac conj_vm := repeat match goal with |- _ /\ _ => split end; try (vm_compute; reflexivity).
+Ltac conj_vm :=
+  repeat match goal with |- _ /\ _ => split | |- exists _, _ => eexists end;
+  match goal with |- _ = _ => vm_compute; reflexivity | _ => idtac end.
 
 Example C01_nonvacuous :
   (* alice -> manager -> admin in d1: allowed by rule 0, which EnforceEx names *)
@@ -188,7 +190,7 @@ Example C01_nonvacuous :
   enforce ex_parse ex_oracle ex_model ""
     {| rq_ctx := None; rq_vals := [VNum 7; VStr "d1"; VStr "data1"; VStr "read"] |} = error_outcome.
 Proof.
-  conj_vm. eexists. conj_vm.
+  conj_vm.
 Qed.
 
 (* ---------- the guards are needed ---------- *)
